@@ -213,7 +213,7 @@ theorem export_total (s : Store) (id : Nat) (h : s.valBsLocked = false) :
       · simp
       · rename_i tx _ _
         simp only [h, Bool.false_eq_true, if_false]
-        have := exportLoop_model_outcomes s tx 0 false
+        have := exportRun_model_outcomes s tx
         rcases this with h | h | h <;> simp [h]
 
 /-- **Full export at or after the cut**: a committed tx `id ≥ n` whose values were readable is
@@ -232,17 +232,19 @@ theorem export_full_after_truncate (s : Store) (n id : Nat) (tx : TxEnts)
   simp only [a, if_false, htxs, htx, hlk, hl]
   split
   · exact ⟨rfl, by rw [hlk, hl]⟩
-  · have : exportLoop 0 false (tx.map (truncateUpto s n).store.readValue) = ⟨.values, false⟩ := by
-      apply exportLoop_all_ok
+  · have : exportRun (tx.map (fun e => (e.len, (truncateUpto s n).store.readValue e))) = ⟨.values, false⟩ := by
+      apply exportRun_all_ok
       intro r hr
       obtain ⟨e, he, rfl⟩ := List.mem_map.mp hr
       exact hr' e he
     simp [this]
 
 /-- **Lock discipline.** Every exit of the entry loop of `ExportTx` — all values, all digests, a read
-error, and both "partially truncated transaction" errors — has released `_valBsMux`. -/
-theorem export_releases_lock (rs : List Rd) (i : Nat) (tr : Bool) : (exportLoop i tr rs).locked = false :=
-  exportLoop_unlocked rs i tr
+error, and both "partially truncated transaction" errors — has released `_valBsMux` (and the pass in
+front of the loop never takes it). -/
+theorem export_releases_lock (rs : List (Nat × Rd)) (i : Nat) (tr : Bool) :
+    (exportLoop i tr rs).locked = false ∧ (exportRun rs).locked = false :=
+  ⟨exportLoop_unlocked rs i tr, exportRun_unlocked rs⟩
 
 /-- … hence `ExportTx` hands the store back with the mutex free, whatever it answers: by `export_total`
 no sequence of `ExportTx` calls ever blocks. -/
@@ -256,7 +258,7 @@ theorem export_keeps_mutex_free (s : Store) (id : Nat) (h : s.valBsLocked = fals
     · split
       · exact h
       · simp only [h, Bool.false_eq_true, if_false]
-        exact exportLoop_unlocked _ _ _
+        exact exportRun_unlocked _
 
 /-- The histories that used to leak the mutex (former finding F4).  Chunk size 64, one value log,
 tx1 = values of 60, 10, 30 bytes (the third lies in chunk 1), tx2, tx3; `TruncateUptoTx(2)` removes chunk 0:
@@ -270,16 +272,76 @@ example :
     ((s1.exportTx 1).1.exportTx 2).2 = .values ∧ ((s1.exportTx 1).1.exportTx 3).2 = .values := by
   decide
 
-/-- The same without any chunk straddling: a wholly truncated tx that contains an empty value next to a
-non-empty one (either order) takes a "partially truncated" exit, because an empty value always "reads" fine;
-later exports are served. -/
+/-- **A wholly truncated transaction is exported by digest, empty values included.**  Every non-empty
+value of the tx answers `io.EOF` (deleted by `TruncateUptoTx`), the empty ones "read" fine (nothing to
+read): `ExportTx` answers with all digests — the empty values go out as the digest stored in their
+entry — wherever the empty values stand.  (Before the repair of `ExportTx` such a tx took a "partially
+truncated" exit and could never be exported again: former finding
+`C15:ExportTx:wholly-truncated-tx-with-empty-value-not-exportable`.) -/
+theorem export_wholly_truncated_by_digest (s : Store) (id : Nat) (tx : TxEnts)
+    (h1 : 1 ≤ id) (hid : id ≤ s.last) (htx : s.txs[id - 1]? = some tx) (hl : s.valBsLocked = false)
+    (hgone : ∀ e ∈ tx, e.len ≠ 0 → s.readValue e = .eof) (hne : ∃ e ∈ tx, e.len ≠ 0) :
+    (s.exportTx id).2 = .digests ∧ (s.exportTx id).1.valBsLocked = false := by
+  have hrun : exportRun (tx.map (fun e => (e.len, s.readValue e))) = ⟨.digests, false⟩ := by
+    apply exportRun_wholly_truncated
+    · intro p hp
+      obtain ⟨e, he, rfl⟩ := List.mem_map.mp hp
+      refine ⟨fun h0 => hgone e he (by simp at h0; omega), fun h0 => ?_⟩
+      simp at h0
+      simp [Store.readValue, h0]
+    · obtain ⟨e, he, h0⟩ := hne
+      exact ⟨_, List.mem_map.mpr ⟨e, he, rfl⟩, by simp; omega⟩
+  have hemp : tx.isEmpty = false := by
+    obtain ⟨e, he, _⟩ := hne
+    cases tx with
+    | nil => cases he
+    | cons _ _ => rfl
+  unfold Store.exportTx
+  have a : ¬ (id = 0 ∨ s.last < id) := by omega
+  simp only [a, if_false, htx, hl, hemp, Bool.false_eq_true, hrun]
+  exact ⟨trivial, trivial⟩
+
+/-- **A genuinely partially truncated transaction is still refused**: when some non-empty value is
+readable and some non-empty value answers `io.EOF`, `ExportTx` answers "partially truncated
+transaction" (and has released the mutex), whatever the order of the entries and wherever empty values
+stand. -/
+theorem export_partially_truncated_refused (s : Store) (id : Nat) (tx : TxEnts)
+    (h1 : 1 ≤ id) (hid : id ≤ s.last) (htx : s.txs[id - 1]? = some tx) (hl : s.valBsLocked = false)
+    (hok : ∃ e ∈ tx, e.len ≠ 0 ∧ s.readValue e = .ok) (heof : ∃ e ∈ tx, e.len ≠ 0 ∧ s.readValue e = .eof) :
+    (s.exportTx id).2 = .errPartial ∧ (s.exportTx id).1.valBsLocked = false := by
+  have hrun : exportRun (tx.map (fun e => (e.len, s.readValue e))) = ⟨.errPartial, false⟩ := by
+    apply exportRun_partially_truncated
+    · intro p hp
+      obtain ⟨e, _, rfl⟩ := List.mem_map.mp hp
+      exact readValue_ne_err s e
+    · obtain ⟨e, he, h0, hr⟩ := hok
+      exact ⟨_, List.mem_map.mpr ⟨e, he, rfl⟩, by simp; omega, hr⟩
+    · obtain ⟨e, he, h0, hr⟩ := heof
+      exact ⟨_, List.mem_map.mpr ⟨e, he, rfl⟩, by simp; omega, hr⟩
+  have hemp : tx.isEmpty = false := by
+    obtain ⟨e, he, _⟩ := hok
+    cases tx with
+    | nil => cases he
+    | cons _ _ => rfl
+  unfold Store.exportTx
+  have a : ¬ (id = 0 ∨ s.last < id) := by omega
+  simp only [a, if_false, htx, hl, hemp, Bool.false_eq_true, hrun]
+  exact ⟨trivial, trivial⟩
+
+/-- The same without any chunk straddling, the history of the former finding: a wholly truncated tx that
+contains an empty value next to a non-empty one (either order) goes out by digest (an empty value always
+"reads" fine and is neutral for both "all or none" guards), a tx whose NON-EMPTY values are partly there is
+refused as before, an untruncated tx with an empty value goes out with its values; later exports are served. -/
 example :
-    exportLoop 0 false [.eof, .ok] = ⟨.errPartial, false⟩ ∧ exportLoop 0 false [.ok, .eof] = ⟨.errPartial, false⟩ ∧
+    exportRun [(30, .eof), (0, .ok)] = ⟨.digests, false⟩ ∧ exportRun [(0, .ok), (30, .eof)] = ⟨.digests, false⟩ ∧
+    exportRun [(0, .ok), (30, .eof), (5, .ok)] = ⟨.errPartial, false⟩ ∧
+    exportRun [(0, .ok), (30, .ok), (5, .eof)] = ⟨.errPartial, false⟩ ∧
+    exportRun [(0, .ok), (30, .ok), (0, .ok)] = ⟨.values, false⟩ ∧ exportRun [(0, .ok), (0, .ok)] = ⟨.values, false⟩ ∧
     (let s : Store := { F := 64, maxIO := 1,
                         txs := [appendValues 1 0 [30, 0], appendValues 1 30 [60], appendValues 1 90 [60]],
                         vlogs := fun _ => { cur := 2, offset := 150, present := [0, 1, 2] } }
      let s1 := (truncateUpto s 3).store
-     (s1.exportTx 1).2 = .errPartial ∧ ((s1.exportTx 1).1.exportTx 3).2 = .values) := by
+     (s1.exportTx 1).2 = .digests ∧ ((s1.exportTx 1).1.exportTx 3).2 = .values) := by
   decide
 
 /-- FULL STATEMENT THAT FAILS ON THE CURRENT CODE: `truncate_safe` for a tx that commits AFTER the
